@@ -627,6 +627,9 @@ class ClassUnit:
         if m.args.vararg or m.args.kwarg or m.args.kwonlyargs:
             raise Untranslatable('signature of %s' % name)
         locs = {}
+        static = any(isinstance(d, ast.Name) and d.id == 'staticmethod' for d in m.decorator_list)
+        if static:
+            params = ['<no self>'] + params
         pos = params[1:]
         defaults = m.args.defaults
         dmap = {}
